@@ -229,7 +229,7 @@ theorem unmarshal_elems_le' (bs : Bytes) (g : G) (s : Nat) (h : unmarshal bs = .
         split at h
         · rename_i hm
           injection h with h; injection h with h h'; subst h; subst h'
-          have h1 := unmarshalMultiF_len _ _ _ _ _ _ _ _ hm
+          have h1 := unmarshalMultiF_len _ _ _ _ _ _ hm
           have h2 := sum_map_le16 (fun _ => 1) (fun _ : Pt UInt64 => 21) ‹_› (fun _ => by simp)
           rw [sum_map_one] at h2
           simp only [pointCount, memberCount]; omega
@@ -247,7 +247,7 @@ theorem unmarshal_elems_le' (bs : Bytes) (g : G) (s : Nat) (h : unmarshal bs = .
             split at h
             · rename_i hm
               injection h with h; injection h with h h'; subst h; subst h'
-              have h1 := unmarshalMultiF_len _ _ _ _ _ _ _ _ hm
+              have h1 := unmarshalMultiF_len _ _ _ _ _ _ hm
               rw [sum_lin16] at h1
               simp only [pointCount, memberCount]; omega
             all_goals contradiction
@@ -266,7 +266,7 @@ theorem unmarshal_elems_le' (bs : Bytes) (g : G) (s : Nat) (h : unmarshal bs = .
                 split at h
                 · rename_i hm
                   injection h with h; injection h with h h'; subst h; subst h'
-                  have h1 := unmarshalMultiF_len _ _ _ _ _ _ _ _ hm
+                  have h1 := unmarshalMultiF_len _ _ _ _ _ _ hm
                   rw [sum_polyStride] at h1
                   simp only [pointCount, memberCount]; omega
                 all_goals contradiction
